@@ -170,7 +170,7 @@ func interleavings(n, m int) [][]bool {
 	return out
 }
 
-var c06prefixes = []string{"none", "completed-before", "broker-exchange-timed-out-before", "client-exchange-unanswered-before", "client-QoS2-finished-5s-before+answer-6s-late"}
+var c06prefixes = []string{"none", "completed-before", "broker-exchange-timed-out-before", "client-exchange-unanswered-before", "client-QoS2-finished-5s-before+answer-6s-late", "client-QoS1-finished-5s-before+answer-6s-late"}
 
 type c06case struct {
 	ci, bi int
@@ -253,6 +253,14 @@ func c06runGateway(t *testing.T, r *rt.Run, c *rt.Case, cs c06case) {
 			s.SNSendP(snref.Publish(2, snref.ShortID("ab"), k, 1, false, false, []byte("earlier-client")))
 			synctest.Wait()
 			time.Sleep(25 * time.Second)
+			synctest.Wait()
+		case "client-QoS1-finished-5s-before+answer-6s-late":
+			// the same with an acknowledged QoS 1 exchange before
+			s.SNSendP(snref.Publish(2, snref.ShortID("ab"), k, 1, false, false, []byte("earlier-q1")))
+			synctest.Wait()
+			s.MQSend(mqttref.EncAck(mqttref.PUBACK, k))
+			synctest.Wait()
+			time.Sleep(5 * time.Second)
 			synctest.Wait()
 		case "client-QoS2-finished-5s-before+answer-6s-late":
 			// a client that reuses the message ID of a finished exchange at once: nothing of the finished one
@@ -611,5 +619,5 @@ func TestC06(t *testing.T) {
 			c06runClient(t, r, c, cls[i-len(gws)])
 		}
 	})
-	r.Finish(fmt.Sprintf("two exchanges with the same message ID, one started by each side, every interleaving of their protocol steps (the script decides when each peer acts; lock-step, virtual time). Gateway (real session handler, scripted client and broker): client exchanges {PUBLISH QoS 1, QoS 2, SUBSCRIBE, UNSUBSCRIBE, REGISTER} x broker exchanges {PUBLISH QoS 0 with REGISTER (the gateway picks ID 0xFFFF, so does the client), QoS 1, QoS 2, each with and without a REGISTER step} x all merges of their steps x prefix {none, an exchange with that ID completed just before, a broker exchange with that ID timed out before, an unanswered client exchange with that ID before, a client QoS 2 exchange with that ID finished 5 s before while the answer of the new client exchange arrives 6 s late (= 11 s, more than one RetryDelay, after the finished one began)} (quick: prefixes rotate over the interleavings) = %d cases. Client library (real client, scripted gateway): calls {Publish QoS 1/2, Subscribe, Register, Unsubscribe} x gateway-initiated {PUBLISH QoS 0/1/2, REGISTER} using the client's own message ID x all merges x {with/without a completed gateway QoS 2 exchange with that ID in between} = %d cases. Oracle: every forward/acknowledgement each exchange is owed happens exactly once by 35 s (65 s) after the last step: a missing one means the acknowledgement was routed to the wrong exchange or dropped, a repeated one that the exchange's state was replaced or deleted and it was retried; the API call returns nil; the session/client stays up.", len(gws), len(cls)), nil)
+	r.Finish(fmt.Sprintf("two exchanges with the same message ID, one started by each side, every interleaving of their protocol steps (the script decides when each peer acts; lock-step, virtual time). Gateway (real session handler, scripted client and broker): client exchanges {PUBLISH QoS 1, QoS 2, SUBSCRIBE, UNSUBSCRIBE, REGISTER} x broker exchanges {PUBLISH QoS 0 with REGISTER (the gateway picks ID 0xFFFF, so does the client), QoS 1, QoS 2, each with and without a REGISTER step} x all merges of their steps x prefix {none, an exchange with that ID completed just before, a broker exchange with that ID timed out before, an unanswered client exchange with that ID before, a client QoS 2 (or acknowledged QoS 1) exchange with that ID finished 5 s before while the answer of the new client exchange arrives 6 s late (= 11 s, more than one RetryDelay, after the finished one began)} (quick: prefixes rotate over the interleavings) = %d cases. Client library (real client, scripted gateway): calls {Publish QoS 1/2, Subscribe, Register, Unsubscribe} x gateway-initiated {PUBLISH QoS 0/1/2, REGISTER} using the client's own message ID x all merges x {with/without a completed gateway QoS 2 exchange with that ID in between} = %d cases. Oracle: every forward/acknowledgement each exchange is owed happens exactly once by 35 s (65 s) after the last step: a missing one means the acknowledgement was routed to the wrong exchange or dropped, a repeated one that the exchange's state was replaced or deleted and it was retried; the API call returns nil; the session/client stays up.", len(gws), len(cls)), nil)
 }
